@@ -118,7 +118,7 @@ structure Canc where
   deriving DecidableEq, Repr
 
 inductive Via where
-  | launch | reply | callback | childEnd | timeout | cancel
+  | launch | reply | callback | childEnd | timeout | cancel | waitCancel
   deriving DecidableEq, Repr
 
 inductive Outcome where
@@ -155,9 +155,9 @@ def sErrorType : Str := ['e', 'r', 'r', 'o', 'r', 'T', 'y', 'p', 'e']
 def sErrorMessage : Str := ['e', 'r', 'r', 'o', 'r', 'M', 'e', 's', 's', 'a', 'g', 'e']
 def sError : Str := ['E', 'r', 'r', 'o', 'r']
 def sCause : Str := ['C', 'a', 'u', 's', 'e']
-def sTaskFailed : Str := "States.TaskFailed".toList
-def sTimeout : Str := "States.Timeout".toList
-def sTerminated : Str := "Task.Terminated".toList
+def sTaskFailed : Str := ['S', 't', 'a', 't', 'e', 's', '.', 'T', 'a', 's', 'k', 'F', 'a', 'i', 'l', 'e', 'd']
+def sTimeout : Str := ['S', 't', 'a', 't', 'e', 's', '.', 'T', 'i', 'm', 'e', 'o', 'u', 't']
+def sTerminated : Str := ['T', 'a', 's', 'k', '.', 'T', 'e', 'r', 'm', 'i', 'n', 'a', 't', 'e', 'd']
 
 def truthyMember (kvs : List (Str × Json)) (k : Str) : Bool :=
   match objGet kvs k with
@@ -190,14 +190,14 @@ structure Detail where
   failure : Option (Json × Json)   -- (error, cause) when the child failed
   deriving DecidableEq
 
-def kExecutionArn : Str := "ExecutionArn".toList
-def kInput : Str := "Input".toList
-def kName : Str := "Name".toList
-def kOutput : Str := "Output".toList
-def kStartDate : Str := "StartDate".toList
-def kStateMachineArn : Str := "StateMachineArn".toList
-def kStatus : Str := "Status".toList
-def kStopDate : Str := "StopDate".toList
+def kExecutionArn : Str := ['E', 'x', 'e', 'c', 'u', 't', 'i', 'o', 'n', 'A', 'r', 'n']
+def kInput : Str := ['I', 'n', 'p', 'u', 't']
+def kName : Str := ['N', 'a', 'm', 'e']
+def kOutput : Str := ['O', 'u', 't', 'p', 'u', 't']
+def kStartDate : Str := ['S', 't', 'a', 'r', 't', 'D', 'a', 't', 'e']
+def kStateMachineArn : Str := ['S', 't', 'a', 't', 'e', 'M', 'a', 'c', 'h', 'i', 'n', 'e', 'A', 'r', 'n']
+def kStatus : Str := ['S', 't', 'a', 't', 'u', 's']
+def kStopDate : Str := ['S', 't', 'o', 'p', 'D', 'a', 't', 'e']
 
 def optText : Option Str → Json
   | some s => .str s
@@ -230,7 +230,24 @@ def childOutcome (f : Form) (d : Detail) (inJ outJ : Json) : Outcome :=
 def keysFor (cs : List (Str × Canc)) (exec : Str) : List Str :=
   (cs.filter (fun kc => kc.2.exec = exec)).map (·.1)
 
-def terminated : Outcome := .err sTerminated (.str "Task has been Terminated".toList)
+def terminated : Outcome := .err sTerminated (.str ['T', 'a', 's', 'k', ' ', 'h', 'a', 's', ' ', 'b', 'e', 'e', 'n', ' ', 'T', 'e', 'r', 'm', 'i', 'n', 'a', 't', 'e', 'd'])
+
+def dropCanc (d : Disp) (e : Str) : Disp := { d with cancellers := aDel d.cancellers e }
+
+/-- a cancelled Wait state's callback -/
+def logWait (d : Disp) (e k : Str) : Disp := { d with log := d.log ++ [⟨e, k, .waitCancel, terminated⟩] }
+
+/-- complete the pending request `k` (if it is still pending) with `Task.Terminated` -/
+def cancelReq (d : Disp) (k : Str) : Disp :=
+  match aGet d.pending k with
+  | some r => { d with pending := aDel d.pending k, log := d.log ++ [⟨r.owner, k, .cancel, terminated⟩] }
+  | none => d
+
+/-- the non-recursive part of `cancel_task(e)` for canceller `c` -/
+def cancelOne (d : Disp) (e : Str) (c : Canc) : Disp :=
+  match c.type with
+  | .timeout => logWait (dropCanc d e) e c.taskId
+  | _ => cancelReq (dropCanc d e) c.taskId
 
 /-- `cancel_task(event_id)`: drop the canceller; complete its pending request (or cancelled Wait)
 with `Task.Terminated`; for a StepFunction task do the same for every canceller registered under
@@ -241,19 +258,9 @@ def cancelTask : Nat → Disp → Str → Disp
     match aGet d.cancellers e with
     | none => d
     | some c =>
-      let d1 := { d with cancellers := aDel d.cancellers e }
-      let d2 : Disp :=
-        match c.type with
-        | .timeout =>
-          { d1 with log := d1.log ++ [⟨e, c.taskId, .cancel, terminated⟩] }
-        | _ =>
-          match aGet d1.pending c.taskId with
-          | some r => { d1 with pending := aDel d1.pending c.taskId,
-                                log := d1.log ++ [⟨r.owner, c.taskId, .cancel, terminated⟩] }
-          | none => d1
       if c.type = .stepFunction then
-        (keysFor d2.cancellers c.taskId).foldl (cancelTask n) d2
-      else d2
+        (keysFor (cancelOne d e c).cancellers c.taskId).foldl (cancelTask n) (cancelOne d e c)
+      else cancelOne d e c
 
 /-- enough fuel for any cascade from this state -/
 def Disp.fuel (d : Disp) : Nat := d.cancellers.length + 1
@@ -279,11 +286,11 @@ structure Launch where
 
 /-- the validation of `asl_service_states_startExecution`, in the code's order -/
 def validate (l : Launch) : Option Str :=
-  if (l.form = .sync || l.form = .sync2) && l.parentType = .express then some "InvalidResourceArn".toList
+  if (l.form = .sync || l.form = .sync2) && l.parentType = .express then some ['I', 'n', 'v', 'a', 'l', 'i', 'd', 'R', 'e', 's', 'o', 'u', 'r', 'c', 'e', 'A', 'r', 'n']
   else match l.childMachine with
-    | none => some "StateMachineDoesNotExist".toList
+    | none => some ['S', 't', 'a', 't', 'e', 'M', 'a', 'c', 'h', 'i', 'n', 'e', 'D', 'o', 'e', 's', 'N', 'o', 't', 'E', 'x', 'i', 's', 't']
     | some t =>
-      if l.form = .sdkSync && t ≠ .express then some "InvalidResourceArn".toList else none
+      if l.form = .sdkSync && t ≠ .express then some ['I', 'n', 'v', 'a', 'l', 'i', 'd', 'R', 'e', 's', 'o', 'u', 'r', 'c', 'e', 'A', 'r', 'n'] else none
 
 def corrId (l : Launch) : Str := if l.form = .token then tokenCid l.eventId else l.childArn
 
@@ -307,7 +314,7 @@ inductive RpcKind where
 def rpcCid (k : RpcKind) (eventId : Str) : Str :=
   match k with
   | .fn => eventId
-  | .invoke => eventId ++ ".invoke".toList
+  | .invoke => eventId ++ ['.', 'i', 'n', 'v', 'o', 'k', 'e']
   | .token => tokenCid eventId
 
 def launchRpc (d : Disp) (k : RpcKind) (eventId exec : Str) : Disp :=
@@ -326,9 +333,9 @@ def isErrorBody : Json → Bool
   | _ => false
 
 def wrapInvoke (cid : Str) (v : Json) : Json :=
-  .obj [("ExecutedVersion".toList, .str "$LATEST".toList), ("Payload".toList, v),
-        ("SdkResponseMetadata".toList, .obj [("RequestId".toList, .str cid)]),
-        ("StatusCode".toList, .num 200)]
+  .obj [(['E', 'x', 'e', 'c', 'u', 't', 'e', 'd', 'V', 'e', 'r', 's', 'i', 'o', 'n'], .str ['$', 'L', 'A', 'T', 'E', 'S', 'T']), (['P', 'a', 'y', 'l', 'o', 'a', 'd'], v),
+        (['S', 'd', 'k', 'R', 'e', 's', 'p', 'o', 'n', 's', 'e', 'M', 'e', 't', 'a', 'd', 'a', 't', 'a'], .obj [(['R', 'e', 'q', 'u', 'e', 's', 't', 'I', 'd'], .str cid)]),
+        (['S', 't', 'a', 't', 'u', 's', 'C', 'o', 'd', 'e'], .num 200)]
 
 /-- the outcome of a callback: success callbacks carry exactly the output (property), failure
 callbacks the error and cause -/
@@ -420,6 +427,9 @@ def Op.registers (cid : Str) : Op → Bool
   | .rpc k e _ => rpcCid k e = cid
   | _ => false
 
-def countKey (cid : Str) (log : List Completion) : Nat := (log.filter (fun c => c.key = cid)).length
+/-- completions of a *request* under correlation id `cid` (a cancelled Wait has no request) -/
+def counts (cid : Str) (c : Completion) : Bool := c.key == cid && c.via != .waitCancel
+
+def countKey (cid : Str) (log : List Completion) : Nat := (log.filter (counts cid)).length
 
 end Asl.Tasks
